@@ -130,7 +130,7 @@ func directC15glue(g *G, rep *Report) {
 				sc := [][2]string{{"{sp}", " "}, {"{nil}", ""}, {"{lb}", "{"}, {"{rb}", "}"}, {"{\\n}", "\n"}, {"{\\t}", "\t"}, {"{\\r}", "\r"}}[r.Intn(7)]
 				pieces = append(pieces, gluePiece{src: sc[0], out: sc[1], kind: "tag"})
 			case c == 7:
-				lit := []string{" x  \n y ", "{$notatag}", "a // b\n/* c */", "<  >", "{{}}", "é\tà", "\n", " \n ", "\r\n", "  ", "\t\n\t", "\r", " "}[r.Intn(13)]
+				lit := []string{" x  \n y ", "{$notatag}", "a // b\n/* c */", "<  >", "{{}}", "é\tà", "\n", " \n ", "\r\n", "  ", "\t\n\t", "\r", " ", ""}[r.Intn(14)]
 				pieces = append(pieces, gluePiece{src: "{literal}" + lit + "{/literal}", out: lit, kind: "tag"})
 			case c == 8:
 				pieces = append(pieces, gluePiece{src: []string{"/* c */", "/* multi\n line */", "/* */", "/**/", "/*/ x */", "/* ** */"}[r.Intn(6)], kind: "comment", comment: true})
@@ -187,8 +187,10 @@ func directC15glue(g *G, rep *Report) {
 		rep.Evaluations++
 		if err != nil {
 			rep.Distribution["compile-error"]++
-			if ce, _ := rep.Extra["compile_errors"].([]string); len(ce) < 6 {
-				rep.Extra["compile_errors"] = append(ce, err.Error()+" :: "+quote([]byte(body.String())))
+			// the bodies are valid by construction (text, tags, literal blocks, comments): being rejected is a failure
+			if len(rep.Violations) < 10 {
+				rep.Violations = append(rep.Violations, Viol{Key: "glue:rejected", What: "a template body of text, print tags, special-character commands, literal blocks and comments does not compile: " + err.Error(),
+					Req: req("c15glue", hxs(src)), Note: quote([]byte(body.String())), Impl: "ERR " + err.Error(), Want: "compiles"})
 			}
 			continue
 		}
